@@ -147,6 +147,15 @@ fn str_contents(n: usize) -> Vec<String> {
         return vec![String::new()];
     }
     let mut v = vec![ascii(n), utf8_of_len(n), tricky_of_len(n)];
+    // NUL / blank / newline at either end, all NULs
+    let mid = ascii(n.saturating_sub(1));
+    v.push(format!("{mid}\0"));
+    v.push(format!("\0{mid}"));
+    v.push(format!("{mid} "));
+    v.push(format!(" {mid}"));
+    v.push(format!("{mid}\n"));
+    v.push("\0".repeat(n));
+    v.sort();
     v.dedup();
     v
 }
